@@ -30,7 +30,9 @@ VERSIONY = ["3.8", "3.10", "2.7", "3", "3.8.1", "1.0", "1.0.0", "2.7.0rc1", "1.0
             "1.0.post1", "1!2.0", "v1.0", "1.0a1", "3.9.0.dev0", "0", "10", " 1.0", "1.0 "]
 NAMEY = ["posix", "nt", "linux", "win32", "darwin", "CPython", "PyPy", "cpython", "x86_64", "Linux", "Windows",
          "#1 SMP; [x]", "5.10.0-foo", "", "a", "b", "ab", "ba", "A", "test", "Foo_Bar", "foo-bar", "foo.bar",
-         "FOO--BAR", "foo_bar", "x(y)", "a b", "it's", 'say "hi"', "a;b", "[dev]", "and", "or", "in", "os_name"]
+         "FOO--BAR", "foo_bar", "x(y)", "a b", "it's", 'say "hi"', "a;b", "[dev]", "and", "or", "in", "os_name",
+         # literals spelled like variable names (a literal is never a variable, whatever its text)
+         "extra", "extra", "python_version", "Extra", "os.name", "platform_machine"]
 
 
 class OutOfDomain(Exception):
